@@ -45,7 +45,14 @@ def evaluate(spec):
         ep, conn = cs["ep"], b.conns[ci]
         sel, out_port = model(opts, ep["sport"])
         c = (ip_address(ep["cip"]).packed, ep["cport"])
-        mine = [p for p in o.pkts if (p.sip, p.sport) == c or (p.dip, p.dport) == c]
+        srv_ip = ip_address(ep["sip"]).packed
+        # a client socket may be shared by connections to different servers / server ports: a connection's packets are those between its
+        # client socket and its server address, minus those on the exported port of a sibling connection with the same addresses
+        sib_ports = {model(opts, o_["ep"]["sport"])[1] for j, o_ in enumerate(spec["conns"]) if j != ci and o_["ep"]["cip"] == ep["cip"] and
+                     o_["ep"]["cport"] == ep["cport"] and o_["ep"]["sip"] == ep["sip"] and (o_["kind"] == "tls") == (cs["kind"] == "tls")}
+        proto = 6 if cs["kind"] == "tls" else 17
+        mine = [p for p in o.pkts if p.proto == proto and (((p.sip, p.sport) == c and p.dip == srv_ip and p.dport not in sib_ports) or
+                                                            ((p.dip, p.dport) == c and p.sip == srv_ip and p.sport not in sib_ports))]
         accounted |= {id(p) for p in mine}
         kind = cs["kind"]
         if kind == "tls" and not sel:
@@ -78,6 +85,8 @@ def evaluate(spec):
             sig, detail = "packets of no known connection in the output", repr(stray[0])
     labels = ["m:" + ("absent" if opts.get("m") is None else "bare" if not opts["m"] else "pairs%d" % len(opts["m"])),
               "p:%d%s" % (len(opts.get("p") or []), "rep" if opts.get("p_repeat") else ""), "kinds:" + "+".join(sorted({c["kind"] for c in spec["conns"]}))]
+    if len({(c["ep"]["cip"], c["ep"]["cport"]) for c in spec["conns"]}) < len(spec["conns"]):
+        labels.append("shared-client-socket")
     sports = {c["ep"]["sport"] for c in spec["conns"]}
     nontrivial = len(sports) >= 2 and (n_mapped >= 1 or opts.get("m") is None) and (n_default + n_unselected >= 1)
     return {"sig": sig, "detail": detail, "nontrivial": nontrivial, "labels": labels}
@@ -103,6 +112,7 @@ def spec_strategy(draw):
         conns.append(c)
     p = draw(st.lists(st.sampled_from(PORT_POOL), max_size=4))
     opts = {"p": p, "p_repeat": draw(st.booleans()) if p else False}
+    share = n >= 2 and draw(st.integers(0, 3)) == 0
     mk = draw(st.sampled_from(["absent", "absent", "bare", "pairs", "pairs"]))
     if mk == "bare":
         opts["m"] = []
@@ -114,6 +124,18 @@ def spec_strategy(draw):
                      for j, a in enumerate(srcs)]
     else:
         opts["m"] = None
+    if share:
+        # one client socket (address and port) talks to several server ports of one host, or to several hosts: the same client address
+        # and port in connection 0 and connection 1, told apart by the server side only (kept on different exported ports when the host is the same)
+        a, b_ = conns[0]["ep"], conns[1]["ep"]
+        if a["v6"] == b_["v6"] and conns[0]["kind"] == conns[1]["kind"]:
+            same_host = draw(st.booleans())
+            nb = dict(b_, cip=a["cip"], cport=a["cport"], cmac=a["cmac"])
+            if same_host:
+                nb.update(sip=a["sip"], smac=a["smac"])
+                if model(opts, nb["sport"])[1] == model(opts, a["sport"])[1] or nb["sport"] == a["sport"]:
+                    nb.update(sip=b_["sip"], smac=b_["smac"])       # would be one conversation in the output: keep the hosts apart
+            conns[1]["ep"] = nb
     return {"conns": conns, "order": draw(st.lists(st.integers(0, 4), min_size=1, max_size=6)), "tseed": draw(st.integers(1, 300)), "opts": opts}
 
 
@@ -128,7 +150,7 @@ RULE = ("1-4 connections (TLS and QUIC) to server ports from a pool of 10 (insid
         "-m, else map.get(port, 8080); client port unchanged; QUIC flows likewise (QUIC is recognised independently of the port).  Non-trivial: "
         ">= 2 different server ports, one mapped (or -m absent) and one default-mapped or unselected")
 ASSUMPTIONS = ["client ports are never in the server-port set (otherwise the tool's own rule cannot name the server)",
-               "distinct connections use distinct client ports", "QUIC traffic is recognised by its header, not by the port (the statement restricts "
+               "distinct connections use distinct client sockets, except that in a quarter of the multi-connection cases two connections of a kind share client address and port (different server port or host)", "QUIC traffic is recognised by its header, not by the port (the statement restricts "
                "only TCP traffic to selected ports)"]
 
 CHECK = Check(PID, "exploration", RULE, ASSUMPTIONS, stages)
